@@ -524,5 +524,210 @@ example : (krun { version := true } { w0 with stdout := .devFull } k0).exit = 1 
 
 end Examples
 
+/-! ## Non-vacuity: the hypotheses of every theorem above, at the concrete worlds -/
+
+/-- `w0` with a device that rejects every write at /t/full -/
+def w0Full : World := { w0 with nodes := ([nT, [102, 117, 108, 108]], .devFull) :: w0.nodes }
+
+/-- non-vacuity of `exit0_iff_delivered`: the oracle `o0`; both sides of the equivalence hold for
+    `age -d -i key -o out in` in `w0` (the three plaintext bytes end up in /t/out) and both fail
+    when RLIMIT_FSIZE is 2 -/
+theorem exit0_iff_delivered_nonvacuous :
+    o0.WF ∧ (run (decArgs nOut) w0 o0).exit = 0 ∧
+    (decArgs nOut).noArgs = false ∧ (decArgs nOut).version = false ∧
+    prepare (decArgs nOut) w0 = .ok (.lazy nOut) ∧
+    operation (decArgs nOut) w0 o0 = .ok (.dec (.ok [10, 20, 30] none)) ∧
+    (Plan.dec (.ok [10, 20, 30] none)).complete = some [10, 20, 30] ∧
+    Holds (.lazy nOut) w0 (run (decArgs nOut) w0 o0) [10, 20, 30] ∧
+    (run (decArgs nOut) { w0 with fsize := some 2 } o0).exit ≠ 0 :=
+  ⟨o0_wf, by decide, rfl, rfl, by rfl, by rfl, rfl,
+   ⟨rfl, [nT, nOut], 0o644, by decide, by decide⟩, by decide⟩
+
+example : (run (decArgs nOut) w0 o0).exit = 0 :=
+  (exit0_iff_delivered _ _ _ o0_wf).2
+    ⟨rfl, Or.inr ⟨rfl, _, _, _, exit0_iff_delivered_nonvacuous.2.2.2.2.1,
+      exit0_iff_delivered_nonvacuous.2.2.2.2.2.1, rfl, exit0_iff_delivered_nonvacuous.2.2.2.2.2.2.2.1⟩⟩
+
+/-- non-vacuity of `version_output_failure_nonzero`: `age -version` with standard output on
+    /dev/full, and on a pipe that closes after 3 of the 8 bytes: the premise `OutputFails` of the
+    inner implication holds in both -/
+theorem version_output_failure_nonzero_nonvacuous :
+    ({ version := true } : Args).noArgs = false ∧ ({ version := true } : Args).version = true ∧
+    OutputFails { w0 with stdout := .devFull } o0.versionLine .stdout ∧
+    OutputFails { w0 with stdout := .limited (some 3) } o0.versionLine .stdout :=
+  ⟨rfl, rfl, .stdoutFull rfl, .stdoutCap 3 rfl (by decide)⟩
+
+example : (run { version := true } { w0 with stdout := .limited (some 3) } o0).exit ≠ 0 :=
+  (version_output_failure_nonzero _ _ o0 rfl rfl).1 version_output_failure_nonzero_nonvacuous.2.2.2
+
+/-- non-vacuity of `exit0_flags_valid`: the successful decryption to /t/out -/
+theorem exit0_flags_valid_nonvacuous :
+    (decArgs nOut).version = false ∧ o0.WF ∧ (run (decArgs nOut) w0 o0).exit = 0 :=
+  ⟨rfl, o0_wf, by decide⟩
+
+/-- non-vacuity of `header_refusal_no_touch`: `age -d -i key -o old in` when `age.Decrypt` refuses
+    the header; every check before it passes (the operation gets as far as the refusal) and the
+    existing /t/old is at stake -/
+theorem header_refusal_no_touch_nonvacuous :
+    (decArgs nOld).version = false ∧ (decArgs nOld).decrypt = true ∧
+    (∀ pt fa, operation (decArgs nOld) w0 { o0 with dec := .headerRefused } ≠ .ok (.dec (.ok pt fa))) ∧
+    prepare (decArgs nOld) w0 = .ok (.lazy nOld) ∧
+    operation (decArgs nOld) w0 { o0 with dec := .headerRefused } = .ok (.dec .headerRefused) := by
+  have h : operation (decArgs nOld) w0 { o0 with dec := .headerRefused } = .ok (.dec .headerRefused) := by
+    rfl
+  refine ⟨rfl, rfl, ?_, by rfl, h⟩
+  intro pt fa h'
+  rw [h] at h'
+  cases h'
+
+/-- non-vacuity of `payload_failure_prefix`: the reader yields 2 of the 3 plaintext bytes, then fails -/
+theorem payload_failure_prefix_nonvacuous :
+    (decArgs nOut).version = false ∧
+    operation (decArgs nOut) w0 { o0 with dec := .ok [10, 20, 30] (some 2) } =
+      .ok (.dec (.ok [10, 20, 30] (some 2))) :=
+  ⟨rfl, by rfl⟩
+
+/-- non-vacuity of `output_failure_nonzero`: the decryption of 3 bytes that would succeed, with
+    RLIMIT_FSIZE = 2 (`OutputFails.fileCap`); the other five ways an output fails follow -/
+theorem output_failure_nonzero_nonvacuous :
+    (decArgs nOut).version = false ∧ o0.WF ∧
+    prepare (decArgs nOut) { w0 with fsize := some 2 } = .ok (.lazy nOut) ∧
+    operation (decArgs nOut) { w0 with fsize := some 2 } o0 = .ok (.dec (.ok [10, 20, 30] none)) ∧
+    (Plan.dec (.ok [10, 20, 30] none)).complete = some [10, 20, 30] ∧
+    OutputFails { w0 with fsize := some 2 } [10, 20, 30] (.lazy nOut) :=
+  ⟨rfl, o0_wf, by rfl, by rfl, rfl, .fileCap nOut 2 rfl (by decide)⟩
+
+/-- ... the parent directory is missing (`create`) -/
+example : prepare (decArgs pNodirOut) w0 = .ok (.lazy pNodirOut) ∧
+    operation (decArgs pNodirOut) w0 o0 = .ok (.dec (.ok [10, 20, 30] none)) ∧
+    OutputFails w0 [10, 20, 30] (.lazy pNodirOut) :=
+  ⟨by rfl, by rfl, .create _ (by decide)⟩
+
+/-- ... the output is a device that rejects every write (`fileFull`) -/
+example : prepare (decArgs [102, 117, 108, 108]) w0Full = .ok (.lazy [102, 117, 108, 108]) ∧
+    operation (decArgs [102, 117, 108, 108]) w0Full o0 = .ok (.dec (.ok [10, 20, 30] none)) ∧
+    OutputFails w0Full [10, 20, 30] (.lazy [102, 117, 108, 108]) ∧
+    (run (decArgs [102, 117, 108, 108]) w0Full o0).exit = 1 :=
+  ⟨by rfl, by rfl, .fileFull _ [nT, [102, 117, 108, 108]] (by decide) (by decide), by decide⟩
+
+/-- ... close(2) reports an error (`close`): the file holds everything and the status is 1 -/
+example : prepare (decArgs nOut) { w0 with closeFails := true } = .ok (.lazy nOut) ∧
+    operation (decArgs nOut) { w0 with closeFails := true } o0 = .ok (.dec (.ok [10, 20, 30] none)) ∧
+    OutputFails { w0 with closeFails := true } [10, 20, 30] (.lazy nOut) ∧
+    (run (decArgs nOut) { w0 with closeFails := true } o0).exit = 1 ∧
+    (run (decArgs nOut) { w0 with closeFails := true } o0).world.get [nT, nOut] = .file [10, 20, 30] 0o644 :=
+  ⟨by rfl, by rfl, .close _ rfl, by decide, by decide⟩
+
+/-- ... standard output rejects every write, or closes after one byte (`stdoutFull`, `stdoutCap`) -/
+example : prepare (decArgs []) { w0 with stdout := .devFull } = .ok .stdout ∧
+    operation (decArgs []) { w0 with stdout := .devFull } o0 = .ok (.dec (.ok [10, 20, 30] none)) ∧
+    OutputFails { w0 with stdout := .devFull } [10, 20, 30] .stdout ∧
+    prepare (decArgs []) { w0 with stdout := .limited (some 1) } = .ok .stdout ∧
+    OutputFails { w0 with stdout := .limited (some 1) } [10, 20, 30] .stdout :=
+  ⟨by rfl, by rfl, .stdoutFull rfl, by rfl, .stdoutCap 1 rfl (by decide)⟩
+
+/-- non-vacuity of `same_file_refused`: the output spelled `sub/../in` and the input `in`; it is
+    this check that ends the run (`prepare` answers `sameFile`) -/
+theorem same_file_refused_nonvacuous :
+    (decArgs pSubUpIn).version = false ∧ isFileName (decArgs pSubUpIn).output = true ∧
+    nIn ∈ inUseNames (decArgs pSubUpIn) ∧
+    absPath w0.cwd (decArgs pSubUpIn).output = absPath w0.cwd nIn ∧
+    prepare (decArgs pSubUpIn) w0 = .error .sameFile :=
+  ⟨rfl, by decide, by decide, by decide, by rfl⟩
+
+/-- non-vacuity of `same_file_refused_strings`: the output spelled `/t//key` and the `-i` file `key`;
+    the two `filepath.Abs` strings are both `/t/key` -/
+theorem same_file_refused_strings_nonvacuous :
+    (decArgs pAbsKey).version = false ∧ ValidPath w0.cwd ∧ isFileName (decArgs pAbsKey).output = true ∧
+    nKey ∈ inUseNames (decArgs pAbsKey) ∧
+    render (absPath w0.cwd (decArgs pAbsKey).output) = render (absPath w0.cwd nKey) ∧
+    render (absPath w0.cwd nKey) = [47, 116, 47, 107, 101, 121] ∧
+    prepare (decArgs pAbsKey) w0 = .error .sameFile := by
+  refine ⟨rfl, ?_, by decide, by decide, by decide, by decide, by rfl⟩
+  intro c hc
+  have : c = nT := by simpa [w0] using hc
+  subst this
+  exact ⟨by decide, by decide, by decide, by decide⟩
+
+/-- non-vacuity of `only_output_changes`: the successful decryption to /t/out, seen from the input
+    /t/in (the run does change the world: /t/out appears) -/
+theorem only_output_changes_nonvacuous :
+    (isFileName (decArgs nOut).output = false ∨ resolve w0 (decArgs nOut).output ≠ some [nT, nIn]) ∧
+    (run (decArgs nOut) w0 o0).world.get [nT, nOut] ≠ w0.get [nT, nOut] :=
+  ⟨Or.inr (by decide), by decide⟩
+
+/-- non-vacuity of `abs_spelling`: working directory /t and the relative path `a/b`, which has a
+    slash to double; `sub` is a component `d` for `d/../p` -/
+theorem abs_spelling_nonvacuous :
+    ValidPath [nT] ∧ ([97, 47, 98] : Bytes) ≠ [] ∧ rooted [97, 47, 98] = false ∧
+    NormalComp nSub ∧ ([97, 47, 98] : Bytes) = [97] ++ slash :: [98] := by
+  refine ⟨?_, by decide, rfl, ⟨by decide, by decide, by decide, by decide⟩, rfl⟩
+  intro c hc
+  have : c = nT := by simpa using hc
+  subst this
+  exact ⟨by decide, by decide, by decide, by decide⟩
+
+example : absPath [nT] [115, 117, 98, 47, 46, 46, 47, 97, 47, 98] = [nT, [97], [98]] ∧
+    absPath [nT] [97, 47, 47, 98] = [nT, [97], [98]] := by
+  obtain ⟨hc, hp, hr, hd, hs⟩ := abs_spelling_nonvacuous
+  obtain ⟨_, _, _, h4, h5, _⟩ := abs_spelling [nT] [97, 47, 98] hc hp hr
+  exact ⟨(h4 nSub hd).trans (by decide), (h5 [97] [98] hs).trans (by decide)⟩
+
+/-- non-vacuity of `resolve_is_abs`: `in` resolves to /t/in in `w0` -/
+theorem resolve_is_abs_nonvacuous : resolve w0 nIn = some [nT, nIn] := by decide
+
+/-- non-vacuity of `keygen_no_overwrite`: `age-keygen -o old` where /t/old is a file -/
+theorem keygen_no_overwrite_nonvacuous :
+    ({ output := nOld } : KArgs).version = false ∧ ({ output := nOld } : KArgs).output ≠ [] ∧
+    resolve w0 ({ output := nOld } : KArgs).output = some [nT, nOld] ∧ w0.get [nT, nOld] ≠ .absent :=
+  ⟨rfl, by decide, by decide, by decide⟩
+
+/-- non-vacuity of `keygen_exit0_iff`: the oracle `k0`; both sides hold for `age-keygen -o new`
+    in `w0`, and both fail for `age-keygen -y key` to a pipe that closes after 8 of the 12 bytes -/
+theorem keygen_exit0_iff_nonvacuous :
+    k0.WF ∧ (krun { output := nNew } w0 k0).exit = 0 ∧
+    kargsValid { output := nNew } = true ∧ ({ output := nNew } : KArgs).version = false ∧
+    koperation { output := nNew } (kworld1 { output := nNew } w0) k0 = some [k0.keyFile] ∧
+    KHolds { output := nNew } w0 (krun { output := nNew } w0 k0) [k0.keyFile].flatten ∧
+    (krun { convert := true, positional := [nKey] } { w0 with stdout := .limited (some 8) } k0).exit ≠ 0 ∧
+    koperation { convert := true, positional := [nKey] }
+      (kworld1 { convert := true, positional := [nKey] } { w0 with stdout := .limited (some 8) }) k0 =
+        some [line1, line2] := by
+  refine ⟨k0_wf, by decide, rfl, rfl, by decide, ?_, by decide, by decide⟩
+  show _ ∧ _
+  exact ⟨rfl, [nT, nNew], by decide, by decide, by decide⟩
+
+/-- non-vacuity of `keygen_mode_0600`: `age-keygen -o new` in `w0` (umask 022, which leaves the
+    owner's bits alone: the premise of the third conjunct holds) -/
+theorem keygen_mode_0600_nonvacuous :
+    ({ output := nNew } : KArgs).version = false ∧ kargsValid { output := nNew } = true ∧
+    ({ output := nNew } : KArgs).output ≠ [] ∧
+    resolve w0 ({ output := nNew } : KArgs).output = some [nT, nNew] ∧ w0.get [nT, nNew] = .absent ∧
+    w0.umask &&& 0o600 = 0 :=
+  ⟨rfl, rfl, by decide, by decide, by decide, by decide⟩
+
+/-- non-vacuity of `segmentation_irrelevant_file`: two 6-byte lines appended to the 2-byte /t/old
+    under RLIMIT_FSIZE = 5, so that the limit is hit inside the first segment -/
+theorem segmentation_irrelevant_file_nonvacuous :
+    (({ w := { w0 with fsize := some 5 } } : Proc).w.get [nT, nOld] = .file [9, 9] 0o600) ∧
+    (∀ L, ({ w := { w0 with fsize := some 5 } } : Proc).w.fsize = some L → ([9, 9] : Bytes).length ≤ L) ∧
+    (kwriteLines (.file [nT, nOld]) { w := { w0 with fsize := some 5 } } [line1, line2]).1.w.get [nT, nOld] =
+      .file [9, 9, 97, 103, 101] 0o600 := by
+  refine ⟨by decide, ?_, by decide⟩
+  intro L h
+  have : L = 5 := by simpa using h.symm
+  subst this
+  decide
+
+/-- non-vacuity of `segmentation_irrelevant_stdout`: the same two lines to a pipe that closes
+    after 8 bytes, i.e. inside the second segment -/
+theorem segmentation_irrelevant_stdout_nonvacuous :
+    ([line1, line2] : List Bytes) ≠ [] ∧
+    (∀ c, ({ w := { w0 with stdout := .limited (some 8) } } : Proc).w.stdout = .limited (some c) →
+      ({ w := { w0 with stdout := .limited (some 8) } } : Proc).emitted.length ≤ c) ∧
+    (kwriteLines .stdout { w := { w0 with stdout := .limited (some 8) } } [line1, line2]).1.emitted =
+      [97, 103, 101, 49, 97, 10, 97, 103] :=
+  ⟨by decide, fun c _ => Nat.zero_le c, by decide⟩
+
 end Props.C15
 end AgeModel
